@@ -42,6 +42,11 @@ NrdRel(t) == (t.lock - 1000) % 10
 LockH(t) == IF t.lock < 1000 THEN t.lock ELSE 0
 NrdKeys == {1, 2}
 NrdFrom == 9      \* first height whose header version allows NRD kernels (AutomatedTesting: HF every 3 blocks)
+\* compaction constants of the AutomatedTesting chain type (global.rs)
+Horizon == 20         \* cut_through_horizon
+CompactEvery == 60    \* Chain::compact runs only when head >= tail + Horizon + CompactEvery
+SyncThreshold == 20   \* state_sync_threshold
+ArchiveInterval == 10 \* txhashset_archive_interval
 
 VARIABLES
   tree,     \* [0..k -> block record] all minted blocks
@@ -153,7 +158,9 @@ InitNode == [hdrs |-> {0}, bodies |-> {0}, head |-> 0, hhead |-> 0,
              nrd |-> [k \in NrdKeys |-> <<>>],    \* recent-kernel index: excess key -> heights (stack)
              spentIdx |-> [x \in {0} |-> {}],     \* block -> set of leaves it spent (blocks applied on a winning chain)
              sums |-> {0},                 \* blocks with stored block sums
-             orph |-> <<>>]                \* orphan pool in insertion order
+             orph |-> <<>>,                \* orphan pool in insertion order
+             tail |-> -1]                  \* body tail height (-1 = not set): set by the first stored block, moved by compaction,
+                                           \* full blocks below it have been removed
 
 OposLeaf(nd, c) == {p[2] : p \in {q \in nd.opos : q[1] = c}}
 
@@ -284,9 +291,10 @@ BodyStage(n1, b) ==
        ELSE LET st3 == ImplApply(st2, b) IN
             IF Work(b) > Work(n1.head)
             THEN [nd |-> [n1 EXCEPT !.u = st3.u, !.opos = st3.opos, !.spentIdx = st3.spentIdx,
-                                    !.sums = st3.sums, !.nrd = st3.nrd, !.bodies = @ \cup {b}, !.head = b],
+                                    !.sums = st3.sums, !.nrd = st3.nrd, !.bodies = @ \cup {b}, !.head = b,
+                                    !.tail = IF @ = -1 THEN Height(b) ELSE @],
                   res |-> "ok_head"]
-            ELSE [nd |-> [n1 EXCEPT !.bodies = @ \cup {b}], res |-> "ok_fork"]
+            ELSE [nd |-> [n1 EXCEPT !.bodies = @ \cup {b}, !.tail = IF @ = -1 THEN Height(b) ELSE @], res |-> "ok_fork"]
 
 ProcBlockSingle(nd, b) ==
   LET ph == ProcHeader(nd, b) IN
@@ -315,6 +323,25 @@ CheckOrphans(nd, h) ==
 ProcBlock(nd, b) ==
   LET r == ProcBlockSingle(nd, b) IN
   IF r.res \in {"ok_head", "ok_fork"} THEN [nd |-> CheckOrphans(r.nd, Height(b) + 1), res |-> r.res] ELSE r
+
+-----------------------------------------------------------------------------
+(* Chain::compact (chain.rs): rewrites the pruned MMR files up to the horizon (no change of the
+   abstract UTXO state, roots or indices), removes full blocks - with their block sums and spent
+   index - below the cutoff height, re-initialises the output_pos and recent-kernel indices and
+   moves the body tail.  A stutter on everything a user observes except the stored bodies.
+   Reorganisations that fork below the horizon of an earlier compaction are outside this model. *)
+SatSub(a, b) == IF a > b THEN a - b ELSE 0
+CanCompact(nd) == nd.tail = -1 \/ Height(nd.head) >= nd.tail + Horizon + CompactEvery
+CompactNode(nd) ==
+  IF ~CanCompact(nd) THEN nd
+  ELSE LET H == Height(nd.head)
+           arch == SatSub(H, SyncThreshold) - (SatSub(H, SyncThreshold) % ArchiveInterval)   \* txhashset_archive_header
+           cutoff == IF arch < SatSub(H, Horizon) THEN arch ELSE SatSub(H, Horizon)
+       IN IF cutoff = 0 THEN nd
+          ELSE [nd EXCEPT !.tail = cutoff,
+                          !.bodies = {b \in @ : Height(b) >= cutoff},
+                          !.sums = {b \in @ : Height(b) >= cutoff},
+                          !.spentIdx = [x \in {y \in DOMAIN nd.spentIdx : Height(y) >= cutoff} |-> nd.spentIdx[x]]]
 
 -----------------------------------------------------------------------------
 (* Minting: any syntactically well-formed block on any existing parent *)
@@ -386,7 +413,20 @@ Reopen ==
   /\ ndel' = ndel + 1
   /\ UNCHANGED tree
 
-TrunkTree == [x \in 0..Trunk |-> [parent |-> IF x = 0 THEN 0 ELSE x - 1, height |-> x, diff |-> 1, tx |-> NoTx, flag |-> "ok"]]
+\* the call is a no-op unless CanCompact; Next only takes it when it does something
+CompactCall ==
+  /\ AllMinted /\ ndel < MaxDeliveries /\ ndel > 0 /\ last.k # "Compact"
+  /\ n' = CompactNode(n)
+  /\ last' = [k |-> "Compact", b |-> 0, res |-> "ok"]
+  /\ ndel' = ndel + 1
+  /\ UNCHANGED tree
+
+\* Trunk block k carries the transaction (coinbase of k-4 -> pool output 200+k) iff the commitment
+\* 200+k is in Pool, so that a long trunk has spent outputs for compaction to prune.
+Compact == CompactNode(n) # n /\ CompactCall
+
+TrunkTx(k) == IF (200 + k) \in Pool /\ k >= 8 THEN [ins |-> {k - 4}, outs |-> {200 + k}, lock |-> 0] ELSE NoTx
+TrunkTree == [x \in 0..Trunk |-> [parent |-> IF x = 0 THEN 0 ELSE x - 1, height |-> x, diff |-> 1, tx |-> TrunkTx(x), flag |-> "ok"]]
 RECURSIVE TrunkNode(_)
 TrunkNode(k) == IF k = 0 THEN InitNode ELSE ProcBlock(TrunkNode(k - 1), k).nd
 
@@ -398,6 +438,7 @@ Init == /\ tree = TrunkTree
 Next == \/ MintAny
         \/ \E b \in Ids \ {0} : DeliverHeader(b) \/ DeliverBlock(b) \/ (\E k \in 2..3 : DeliverHeaders(b, k))
         \/ Reopen
+        \/ Compact
 
 Spec == Init /\ [][Next]_vars
 
@@ -410,7 +451,7 @@ BestProj(nd) == <<nd.head, nd.u, nd.opos, nd.nrd,
 
 \* C03
 HeadValidated == n.head \in n.bodies /\ Valid(n.head)
-Accepted(nd, b) == b \in nd.bodies /\ \A a \in Ids : IsAnc(a, b) => a \in nd.bodies
+Accepted(nd, b) == b \in nd.bodies /\ \A a \in Ids : (IsAnc(a, b) /\ Height(a) >= nd.tail) => a \in nd.bodies
 HeadMaxWork == \A b \in Ids : Accepted(n, b) => Work(b) <= Work(n.head)
 BodiesValid == \A b \in n.bodies : Valid(b)              \* only valid blocks are ever stored
 HeadMonotone == [][n'.head # n.head => Work(n'.head) > Work(n.head)]_vars
@@ -419,11 +460,11 @@ HeadMonotone == [][n'.head # n.head => Work(n'.head) > Work(n.head)]_vars
 UnspentIsReplay == n.u = Replay(n.head)
 IndexConsistent == n.opos = {<<n.u.outs[i].c, i>> : i \in n.u.unspent}
 NoDupUnspent == \A i, j \in n.u.unspent : n.u.outs[i].c = n.u.outs[j].c => i = j
-SpentIdxInv == \A b \in Ids : (b # 0 /\ IsAnc(b, n.head)) =>
+SpentIdxInv == \A b \in Ids : (b # 0 /\ IsAnc(b, n.head) /\ Height(b) >= n.tail) =>
                    /\ b \in DOMAIN n.spentIdx
                    /\ n.spentIdx[b] = SpentLeaves(Replay(Parent(b)), b)
 \* C01 (history clause): sums are stored for every best-chain block
-SumsInv == \A b \in Ids : IsAnc(b, n.head) => b \in n.sums
+SumsInv == \A b \in Ids : (IsAnc(b, n.head) /\ Height(b) >= n.tail) => b \in n.sums
 
 \* C13: every best-chain block satisfied maturity and lock rules w.r.t. its own ancestors
 MaturityLockInv == \A b \in Ids : (b # 0 /\ IsAnc(b, n.head)) =>
@@ -438,7 +479,12 @@ NrdInv == /\ \A k \in NrdKeys : n.nrd[k] = NrdHist(n.head, k)
                 NrdOK(NrdHist(Parent(b), NrdKey(tree[b].tx)), b)
 
 \* C06: a failing call, or one that does not move the head, leaves the best-chain state alone
-RejectLeavesState == [][(n'.head = n.head) => BestProj(n') = BestProj(n)]_vars
+RejectLeavesState == [][(n'.head = n.head /\ last'.k # "Compact") => BestProj(n') = BestProj(n)]_vars
+\* C08 (chain level): compaction changes nothing but the stored bodies / their sums and spent index
+CompactIsStutter == [][last'.k = "Compact" =>
+                         /\ n'.head = n.head /\ n'.hhead = n.hhead /\ n'.u = n.u /\ n'.opos = n.opos
+                         /\ n'.nrd = n.nrd /\ n'.hdrs = n.hdrs /\ n'.orph = n.orph
+                         /\ n'.tail >= n.tail /\ n'.head \in n'.bodies]_vars
 \* and nothing but valid headers / fork blocks is remembered
 OnlyValidRemembered == /\ \A b \in n.hdrs : HeaderChainOK(b)
                        /\ \A b \in n.bodies : Valid(b)
@@ -446,7 +492,7 @@ OnlyValidRemembered == /\ \A b \in n.hdrs : HeaderChainOK(b)
 \* C03 Confluence: at quiescence (every valid block delivered, orphan pool empty of valid blocks) the
 \* head is the unique maximum-work valid block and the state is its replay.
 ValidIds == {b \in Ids : Valid(b)}
-Quiescent == AllMinted /\ \A b \in ValidIds : b \in n.bodies
+Quiescent == AllMinted /\ \A b \in ValidIds : b \in n.bodies \/ Height(b) < n.tail
 MaxWorkValid == {b \in ValidIds : \A c \in ValidIds : Work(c) <= Work(b)}
 Confluence == Quiescent => /\ n.head \in MaxWorkValid
                            /\ n.u = Replay(n.head)
@@ -456,4 +502,5 @@ OrphansRetried == \A i \in 1..Len(n.orph) : LET b == n.orph[i] IN ~(Parent(b) \i
 
 TypeOK == /\ n.head \in Ids /\ n.hhead \in Ids
           /\ n.hdrs \subseteq Ids /\ n.bodies \subseteq n.hdrs
+          /\ n.tail \in -1..Height(n.head)
 =============================================================================
